@@ -935,10 +935,20 @@ where
         if is_deferred(node) {
             deferred.insert(ix as u16);
         }
-        if deferred.contains(&(ix as u16)) {
-            for child in predicate.node_edges(ix).expect("Already checked") {
-                deferred.insert(*child);
+    }
+    // Defer all descendants of deferred nodes. A child may have a lower index
+    // than its parent, so propagate until no new node is added.
+    loop {
+        let before = deferred.len();
+        for ix in 0..predicate.nodes.len() {
+            if deferred.contains(&(ix as u16)) {
+                for child in predicate.node_edges(ix).expect("Already checked") {
+                    deferred.insert(*child);
+                }
             }
+        }
+        if deferred.len() == before {
+            break;
         }
     }
     deferred
